@@ -95,6 +95,7 @@ def _restore_entity(population, directory):
     path = os.path.join(directory, population.entity.key)
 
     population.ids = numpy.load(os.path.join(path, "id.npy"))
+    population.count = len(population.ids)
 
     if population.entity.is_person:
         return None
@@ -114,7 +115,6 @@ def _restore_entity(population, directory):
             list(flattened_roles),
         )
     person_count = len(population.members_entity_id)
-    population.count = max(population.members_entity_id) + 1
     return person_count
 
 
